@@ -264,6 +264,60 @@ DESC5 = {
  'C18_C': ('mem/queue.rs resolve_append_position', 'the in-the-past case left to the in-memory queue, i.e. after the WAL write', 'a stale explicit position on one queue, restart: every queue unreadable'),
 }
 
+DESC6 = {
+ 'C01_A': ('multi_record_log.rs delete_queue release_unused_files', 'delete_queue calls the fsync-and-unlink tail of the GC directly: the positions of empty queues are not re-recorded', 'an empty queue whose only position record sits in a file pinned by the deleted queue, restart'),
+ 'C01_B': ('frame/reader.rs go_to_next_block_if_necessary', 'cursor / block_corrupted reset before next_block() (rediscovery of r4_C01_A)', 'a WAL ending within 6 bytes of the end of the last file, reopen, append, reopen'),
+ 'C01_C': ('mem/queues.rs deleted_queues tombstones', 'ack_position ignores names deleted earlier; only the live create_queue clears the tombstone', 'create, delete, create again, restart'),
+ 'C02_A': ('rolling/directory.rs RollingWriter::write', 'a re-used next file is sized with set_len(FRAME_NUM_BYTES) instead of FILE_NUM_BYTES', 'crash between creation and sizing of the next file, reopen, roll into it, write more than a block, restart'),
+ 'C02_B': ('frame/reader.rs + recordlog/reader.rs into_writer_at', 'after a torn multi-frame entry the writer resumes at the in-block offset of that entry\'s first frame', 'a crash inside a multi-block entry, recovery, more operations, restart'),
+ 'C02_C': ('multi_record_log.rs truncate', 'the range written to the Truncate entry is clamped to the last position; memory uses the caller\'s range', 'truncate beyond the last record, restart before any GC'),
+ 'C03_A': ('mem/queues.rs empty_queues + record_empty_queues_position', 'empty_queues yields (name, last_position().unwrap_or(0)): the RecordPosition is one too low', 'a queue emptied by truncate, GC, reopen'),
+ 'C03_B': ('rolling/directory.rs RollingWriter::gc + pass-throughs', '"make durable, then delete" helper that fsyncs without flushing the BufWriter', 'lazy policy, roll-over, truncate freeing file 0, crash'),
+ 'C03_C': ('persist_policy.rs already_covers + MultiRecordLog::persist', 'under Always(p) an explicit persist no stronger than p is skipped, internal callers included', 'Always(FlushAndFsync) and a crash right after create_queue / delete_queue'),
+ 'C04_A': ('mem/queue.rs truncate_head clear()', 'evict-everything branch extracted; start_position = next_position()', 'truncate beyond the last appended position, automatic append'),
+ 'C04_B': ('frame/reader.rs go_to_next_block_if_necessary', 'cursor reset before next_block() (rediscovery)', 'log ending within 6 bytes of a file end, restart, append, restart'),
+ 'C04_C': ('multi_record_log.rs record_empty_queues_position', 'positions taken from the name-sorted QueuesSummary: end.unwrap_or(start) is the last position, not the next', 'an emptied queue, GC deleting a file, restart'),
+ 'C06_A': ('mem/queue.rs position_file + record_empty_queues_position', 'each empty queue keeps a clone of the file its position was written in', 'a GC pass while a queue is empty, that queue idle, later roll-overs and truncates'),
+ 'C06_B': ('mem/queues.rs delete_queue returning the queue', 'the removed MemQueue bound to a local for a log line: alive across the GC pass', 'delete_queue on the queue that alone pins the oldest files'),
+ 'C06_C': ('multi_record_log.rs open_with_prefs', 'per-record file clone hoisted and refreshed at the bottom of the loop: the Corruption arm skips the refresh', 'CRC damage on a record straddling two files followed by a good record of another queue'),
+ 'C07_A': ('frame/writer.rs num_bytes_remaining_in_block field', 'block position cached in the frame writer, stored back only after a successful frame write', 'padding written, frame write fails once, later appends'),
+ 'C07_B': ('recordlog/writer.rs write_record chunks()', 'first frame + chunks; the only-frame test misses the empty entry with exactly 7 bytes left', 'an empty entry written with exactly HEADER_LEN bytes left in the block'),
+ 'C07_C': ('recordlog/reader.rs go_next', 'a First/Full frame arriving while within_record answers Corruption (the frame is dropped)', 'crash in the middle of a multi-block entry, reopen, append, reopen'),
+ 'C08_A': ('frame/header.rs Header::check is_block_filler', 'a frame with len == 0 is accepted without comparing the checksum', 'a First frame overwritten by forged empty-First headers before an intact Last frame'),
+ 'C08_B': ('frame/reader.rs go_to_next_block_if_necessary', 'with no next block the corrupted flag is cleared and the cursor steps past the bad header', 'a damaged type byte in the last block and frame-shaped bytes in the payload'),
+ 'C08_C': ('mem replay_record + open_with_prefs', 'replay refuses a position only below start_position', 'delete + create entries lost to damage: positions 0, 1, 0 recovered'),
+ 'C09_A': ('frame/reader.rs read_frame', 'on CRC failure cursor = frame_num_bytes (block-relative) instead of +=', 'payload damage in a frame that is not the first of its block'),
+ 'C09_B': ('mem/queues.rs ack_position', 'stale and unknown branches merged into entry().or_insert_with(): the stale queue is kept', 'payload damage on a DeleteQueue entry followed by re-creation'),
+ 'C09_C': ('recordlog/reader.rs skip_to_end_of_record', 'on Corruption inside an entry frames are discarded up to the next Last/Full', 'damage in the Last frame of a multi-frame entry'),
+ 'C10_A': ('frame/reader.rs payload_fits_in_block', 'payload-fits test evaluated before the header is consumed', 'a damaged length in the 7-value window'),
+ 'C10_B': ('file_number.rs FileTracker::next / inc', 'range(n + 1..)', 'a stray wal-18446744073709551615'),
+ 'C10_C': ('rolling/directory.rs read_block', 'hand-written fill loop spinning on EOF after a partial read', 'a WAL file cut mid-block'),
+ 'C11_A': ('rolling/directory.rs RollingReader::open', 'first block read through read_block, whose Ok(false) is ignored', 'an oldest WAL file shorter than one block'),
+ 'C11_B': ('frame/reader.rs leave_corrupted_block', 'matches!(next_block(), Ok(true)): an I/O error while leaving a corrupted block becomes NotAvailable', 'header corruption in a block and an I/O error loading the next one'),
+ 'C11_C': ('multi_record_log.rs can_resume_after', 'IoError NotFound classified as resumable like Corruption', 'a listed WAL file that disappears: open retries for ever'),
+ 'C13_A': ('multi_record_log.rs is_empty_batch', 'empty batch decided by size_hint().1 == Some(0)', 'an empty batch through an iterator of unknown size'),
+ 'C13_B': ('multi_record_log.rs ack_noop', 'no-op acknowledgements call persist_on_policy()', 'OnDelay, buffered append, delay elapsed, then a retry / empty batch'),
+ 'C13_C': ('mem/queues.rs try_truncate + truncate', 'missing-queue check delegated to the in-memory truncate, after the WAL write', 'truncate on a missing queue, flush'),
+ 'C14_A': ('block_read_write.rs skip + frame/writer.rs + directory.rs forward', 'padding skipped by seeking the raw File under the BufWriter', 'lazy policy, an entry ending 1..6 bytes before a block end'),
+ 'C14_B': ('multi_record_log.rs gc_pending', 'GC after truncate deferred to the next policy-driven persist', 'OnDelay, truncate emptying a queue, later append to it, restart'),
+ 'C14_C': ('rolling/directory.rs RollingWriter::size', 'disk usage = full files + offset - BufWriter::buffer().len()', 'lazy policy and a live resource_usage()'),
+ 'C15_A': ('frame/writer.rs write_frame block_cursor', 'count = cursor distance modulo the block size', 'a frame filling a whole block'),
+ 'C15_B': ('recordlog/writer.rs write_record', 'single-frame fast path returns HEADER_LEN + len', 'an entry starting 1..6 bytes before a block end'),
+ 'C15_C': ('multi_record_log.rs wal_bytes_pending', 'counts accumulated in a field and drained when an outcome is built', 'an I/O fault between the write and the outcome, then a successful call'),
+ 'C16_A': ('mem/queue.rs drain_record_metas', 'rebase by the start offset of the LAST DRAINED record', 'any partial truncation'),
+ 'C16_B': ('mem/queues.rs size', 'allocated = table capacity x entry size + queue capacities (name bytes dropped)', 'long queue names on nearly empty queues'),
+ 'C16_C': ('mem/rolling_buffer.rs clear MIN_RETAINED_CAPACITY', 'clear() keeps len/8 bytes (VecDeque::truncate shortens the length)', 'a queue of >= 32 KiB emptied by one truncation'),
+ 'C17_A': ('rolling/directory.rs wal_seq_number', 'name taken from path().file_stem(): wal-<20 digits>.<ext> passes the parser', 'a side file wal-...1.bak without the genuine file'),
+ 'C17_B': ('file_number.rs FileTracker::next', 'point lookup files.get(curr + 1)', 'a hole in the numbering'),
+ 'C17_C': ('multi_record_log.rs open_with_prefs', 'create_dir_all(directory_path) before opening', 'opening a path that does not exist'),
+ 'C18_A': ('mem/queue.rs is_empty + mem/queues.rs ack_position', 'is_empty tests the payload bytes; ack_position always re-creates', 'a queue holding only empty payloads, a GC triggered by another queue, restart'),
+ 'C18_B': ('multi_record_log.rs delete_queue reclaim_unused_files', 'delete_queue unlinks unused files without the position pass', 'an empty queue whose records sit only in files pinned by the deleted queue'),
+ 'C18_C': ('recordlog/reader.rs go_next', 'a First/Full frame is honoured only when no entry is open', 'a torn multi-frame entry of another queue at the tail, recovery, append, restart'),
+ 'C12_A': ('?', '?', '?'),
+ 'C12_B': ('?', '?', '?'),
+ 'C12_C': ('?', '?', '?'),
+}
+
 
 ROUND = os.environ.get('SEED_ROUND', '1')
 
@@ -278,6 +332,8 @@ def main():
         DESC = DESC4
     if ROUND == '5':
         DESC = DESC5
+    if ROUND == '6':
+        DESC = DESC6
     out_root = os.path.join(VERIF, 'seeded')
     os.makedirs(out_root, exist_ok=True)
     work = os.path.join(VERIF, '.work')
@@ -287,7 +343,7 @@ def main():
         pid, x = key.split('_')
         src = os.path.join(SRC, pid, x)
         vs = os.path.join(VS, '%s_%s.json' % (pid, x))
-        if ROUND in ('3', '4', '5') and os.path.exists(os.path.join(VS, 'r%s_%s_%s.json' % (ROUND, pid, x))):
+        if ROUND in ('3', '4', '5', '6') and os.path.exists(os.path.join(VS, 'r%s_%s_%s.json' % (ROUND, pid, x))):
             vs = os.path.join(VS, 'r%s_%s_%s.json' % (ROUND, pid, x))
         if not os.path.isdir(src) or not os.path.exists(vs):
             print('skip (not verified yet):', key)
